@@ -188,10 +188,26 @@ impl WirePeer {
 /// a connected loopback TCP pair made with blocking sockets (nothing waits for readiness)
 pub fn tcp_pair() -> Result<(tokio::net::TcpStream, tokio::net::TcpStream), String> {
     let e = |e: std::io::Error| e.to_string();
-    let l = std::net::TcpListener::bind("127.0.0.1:0").map_err(e)?;
-    let a = std::net::TcpStream::connect(l.local_addr().map_err(e)?).map_err(e)?;
+    let IpAddr::V4(la) = fresh_loopback() else { unreachable!() };
+    let l = std::net::TcpListener::bind((la, 0)).map_err(e)?;
+    let s = socket2::Socket::new(socket2::Domain::IPV4, socket2::Type::STREAM, None).map_err(e)?;
+    s.bind(&std::net::SocketAddr::new(fresh_loopback(), 0).into()).map_err(e)?;
+    s.connect(&l.local_addr().map_err(e)?.into()).map_err(e)?;
+    let a: std::net::TcpStream = s.into();
     let (b, _) = l.accept().map_err(e)?;
     a.set_nonblocking(true).map_err(e)?;
     b.set_nonblocking(true).map_err(e)?;
     Ok((tokio::net::TcpStream::from_std(a).map_err(e)?, tokio::net::TcpStream::from_std(b).map_err(e)?))
+}
+
+/// a loopback address of its own for every peer of every case (127.32.0.0/11 .. 127.127.x.x): bind(addr, 0)
+/// then never meets the TIME_WAIT sockets earlier cases left on another address
+pub fn fresh_loopback() -> IpAddr {
+    static N: std::sync::atomic::AtomicU32 = std::sync::atomic::AtomicU32::new(0);
+    let mut n = N.fetch_add(1, std::sync::atomic::Ordering::Relaxed);
+    if n == 0 {
+        n = std::process::id().wrapping_mul(104_729);
+        N.store(n.wrapping_add(1), std::sync::atomic::Ordering::Relaxed);
+    }
+    IpAddr::V4(std::net::Ipv4Addr::new(127, 32 + ((n >> 16) % 96) as u8, (n >> 8) as u8, 1 + (n % 254) as u8))
 }
